@@ -2998,9 +2998,13 @@ pub(crate) fn get_route<L: Logger, S: ScoreLookUp>(
 				}
 			}
 
+			let hint_source = NodeId::from_pubkey(&hop.src_node_id);
 			let candidate = network_channels
 				.get(&hop.short_channel_id)
 				.and_then(|channel| channel.as_directed_to(target))
+				// Only use the announced channel's details if the hint describes that very channel;
+				// if it names another source node the announced channel is not what the hint is about.
+				.filter(|(info, _)| *info.source() == hint_source)
 				.map(|(info, _)| CandidateRouteHop::PublicHop(PublicHopCandidate {
 					info,
 					short_channel_id: hop.short_channel_id,
